@@ -6,6 +6,9 @@ Executable model of pedal's CAIT tree matcher
       conflict keys)
   pedal/cait/cait_node.py               (CaitNode: children, field)
 as called by `pedal.cait.cait_api.find_matches(pattern, code)` (check_meta=True, use_previous=None).
+The code is modelled AS IT IS (with the proposed repairs of notes/C10.md, notes/C11.md): in particular
+`deep_find_match_BinOp` hands `check_meta=False` to the commutative path, so from a `+` / `*` node downwards no AST
+field is compared (`deep false …` below); that behaviour is an open C11 finding, not a repair.
 
 Core Lean only.  Trees are abstract: kind, the parent's field, the ordered `ast.iter_fields` with
 plain values (type + canonical text) or the marker "an AST node stands here", and the children.
